@@ -34,7 +34,8 @@ type gen struct {
 	off       map[string]bool
 	types     map[string]*typ
 	structs   []*typ
-	K         int // the common array length
+	named     []*typ // named array, slice and map types
+	K         int    // the common array length
 	pool      []*pvar
 	global    bool
 	funcs     []string
@@ -137,11 +138,29 @@ func (g *gen) mkTypes() {
 		}
 		g.structs = append(g.structs, g.intern(st))
 	}
+	if g.off["named-types"] {
+		return
+	}
+	if g.chance(50) {
+		g.namedType("A0", g.arr(g.K, it))
+	}
+	if g.chance(40) {
+		g.namedType("L0", g.slice(it))
+	}
+	if g.chance(25) {
+		g.namedType("M0", g.mapOf(g.arr(g.K, it)))
+	}
+	if g.chance(25) {
+		g.namedType("A1", g.arr(2, g.structs[0]))
+	}
 }
 
 func (g *gen) baseType() *typ {
 	it := g.intT()
 	s := g.structs[g.uni(len(g.structs), "s")]
+	if len(g.named) > 0 && g.chance(25) {
+		return g.named[g.uni(len(g.named), "named")]
+	}
 	switch g.uni(16, "basekind") {
 	case 0:
 		return g.arr(g.K, it)
@@ -395,6 +414,16 @@ func (g *gen) mutateInt(root string, t *typ, rootStatic bool) bool {
 	return g.mutate(root, t, rootStatic) != ""
 }
 
+// mutateIntOnly emits an element/field update and nothing else (false when
+// the type has no assignable int).
+func (g *gen) mutateIntOnly(root string, t *typ) bool {
+	if g.tryMutate("int", root, t, false) {
+		g.count("mut:int")
+		return true
+	}
+	return false
+}
+
 func (g *gen) tryMutate(form, root string, t *typ, rootStatic bool) bool {
 	switch form {
 	case "int":
@@ -423,7 +452,31 @@ func (g *gen) tryMutate(form, root string, t *typ, rootStatic bool) bool {
 		if p.static {
 			path = p.expr
 		}
-		l := g.lit(p.t, path)
+		var l string
+		switch {
+		case p.t.k == kSlice && g.chance(25):
+			n := g.rng(0, 3, "ml")
+			c := n + g.rng(0, 3, "mc")
+			l = fmt.Sprintf("make(%s, %d, %d)", p.t.str, n, c)
+			if path != "" {
+				g.shadow[path] = &slen{n, c}
+			}
+			g.count("mut:make")
+		case p.t.k == kMap && g.chance(25):
+			l = fmt.Sprintf("make(%s)", p.t.str)
+			if path != "" {
+				g.keys[path] = map[int]bool{}
+			}
+			g.count("mut:make")
+		case p.t.k == kPtr && g.chance(25):
+			l = fmt.Sprintf("new(%s)", p.t.elem.str)
+			g.count("mut:new")
+		case isValueAggregate(p.t) && g.chance(10):
+			l = p.t.str + "{}"
+			g.count("mut:zero")
+		default:
+			l = g.lit(p.t, path)
+		}
 		g.guarded(p.wguards(), func() { g.w.line("%s = %s", p.expr, l) })
 		return true
 	case "append":
@@ -726,11 +779,20 @@ func (g *gen) opCallMut() bool {
 	}
 	fn := g.fresh("f")
 	g.inFunc(fmt.Sprintf("func %s(x %s)", fn, q.t.str), func() {
+		local := g.chance(35)
+		if local {
+			// a second copy inside the callee
+			g.w.line("y := x")
+			g.mutateInt("y", q.t, false)
+		}
 		g.mutateInt("x", q.t, false)
 		if g.chance(40) {
 			g.mutate("x", q.t, false)
 		}
 		g.showLine("x", "x", q.t)
+		if local {
+			g.showLine("y", "y", q.t)
+		}
 	})
 	g.guarded(q.guards, func() { g.w.line("%s(%s)", fn, q.expr) })
 	g.wrote(place{t: q.t})
@@ -770,6 +832,15 @@ func (g *gen) opCallRet() bool {
 	c := cs[g.uni(len(cs), "dst")]
 	p := g.inst(c.v.name, c.v.t.k != kPtr, c.sc)
 	fn := g.fresh("f")
+	// a callee that may be called while the operands of the left side are
+	// evaluated only updates ints
+	mi := func(root string) {
+		if p.mapStatic {
+			g.mutateIntOnly(root, q.t)
+		} else {
+			g.mutateInt(root, q.t, false)
+		}
+	}
 	named := g.chance(35)
 	hdr := fmt.Sprintf("func %s(x %s) %s", fn, q.t.str, q.t.str)
 	if named {
@@ -778,14 +849,14 @@ func (g *gen) opCallRet() bool {
 	g.inFunc(hdr, func() {
 		if named {
 			g.w.line("r = x")
-			g.mutateInt("x", q.t, false)
+			mi("x")
 			if g.chance(50) {
-				g.mutateInt("r", q.t, false)
+				mi("r")
 			}
 			g.showLine("x", "x", q.t)
 			g.w.line("return")
 		} else {
-			g.mutateInt("x", q.t, false)
+			mi("x")
 			g.w.line("return x")
 		}
 	})
@@ -794,7 +865,7 @@ func (g *gen) opCallRet() bool {
 	g.guarded(append(p.wguards(), q.guards...), func() {
 		// the call may write what the operands of the left side read: keep
 		// the call in its own statement unless the target is a fixed location
-		if p.static {
+		if p.static || p.mapStatic {
 			g.w.line("%s = %s(%s)", p.expr, fn, q.expr)
 		} else {
 			r := g.fresh("r")
@@ -880,6 +951,10 @@ func (g *gen) opRange() bool {
 		}
 		g.w.ind--
 		g.w.line("}")
+		if el.k != kInt && g.chance(40) {
+			// the iteration variable is a copy of the element
+			g.mutateInt(ev, el, false)
+		}
 		g.w.line("fmt.Print(\"r\", %s, \":\")", iv)
 		g.show(ev, el, 0)
 		g.w.line("fmt.Println()")
@@ -1477,6 +1552,9 @@ func Generate(t *rapid.T, off map[string]bool) *Program {
 			fmt.Fprintf(&b, "\t%s %s\n", f.name, f.t.str)
 		}
 		b.WriteString("}\n\n")
+	}
+	for _, n := range g.named {
+		fmt.Fprintf(&b, "type %s %s\n\n", n.str, n.under.str)
 	}
 	b.WriteString("func pint(v int) *int { return &v }\n\n")
 	if g.global {
